@@ -67,6 +67,29 @@ var vxC13Ctx = []vxCtx{
 	{"x := a!", "\n", 0},
 	{"var x = () => {", "}\n", 0},
 	{"var x = () => { goto ", " }\n", 0},
+	// XGo-specific shapes added after the second seeding round
+	{"ch <- a", "\n", 0},
+	{"x := json`{", "}`\n", 0},
+	{"echo html`<b>", "</b>`, 1\n", 0},
+	{"echo (a, b", ")\n", 0},
+	{"x := (a, b", ") => a\n", 0},
+	{"func (T).", " = (a; b)\n", 0},
+	{"func add = (\n\tfunc(a, b int) int {\n\t\treturn a + b\n\t}\n\t", "\n)\n", 0},
+	{"x := [1, 2; 3, ", "]\n", 0},
+	{"x := ${", "}\n", 0},
+	{"x := a[1:", "]\n", 0},
+	{"x := 1:10:", "\n", 0},
+	{"for x in [1, 2] if x", " {\n}\n", 0},
+	{"x := {\"a\": 1, ", "}\n", 0},
+	{"defer f(", ")\n", 0},
+	{"x := f(a...", ")\n", 0},
+	{"type T interface {\n\t", "\n}\n", 0},
+	{"x := py\"", "\"\n", 0},
+	{"x := 1", "px\n", 0},
+	{"func (a T) ", " (b T) T {\n\treturn a\n}\n", 0},
+	{"x := a ", " b\n", 0},
+	{"echo (a, b.", ")\n", 0},
+	{"f(a, b.", ")\n", 0},
 }
 
 func vxHasBad(f ast.Node) (bad bool, walked bool) {
